@@ -412,7 +412,11 @@ def gen_W(tier, seed, info):
     # a sibling, creates a window -- while its own window is still in the tree with no reference left
     for shape, dying, others in ((["n0.0"], 1, [0]), (["n0.0", "n0.0"], 1, [0, 2]), (["n0.0", "n1.0", "n0.0"], 2, [0, 1, 3]),
                                  (["n0.0", "n1.0", "r2"], 1, [0, 2])):
-        bodies = ["f0", "x0,f0", "u0", "t0", "y0", "Z", "n0.0", "R%d" % dying, "-"]
+        d = dying
+        # ... and calls on the dying window itself (not traced: the handler is handed the window): events on it, its pen
+        bodies = ["f0", "x0,f0", "u0", "t0", "y0", "Z", "n0.0", "R%d" % dying, "-",
+                  "y%d" % d, "t%d" % d, "x%d,f0" % d, "p%d" % d, "q%d,z%d,P%d" % (d, d, d), "h%d,f0" % d, "t%d,y%d,x%d,f0,u0" % (d, d, d),
+                  "N%d.1,t%d" % (d, d), "y%d,y%d" % (d, d)]
         for o in others:
             if o != 0:
                 bodies += ["u%d" % o, "c%d,u%d" % (o, o), "t%d" % o, "y%d" % o, "p%d" % o, "x%d,f0" % o, "h%d,f0" % o, "n%d.0" % o]
@@ -560,6 +564,11 @@ def gen_O(tier, seed, info):
         "O T+x K+0 H0.1 k0 u0", "O T+x K+0 H0.0 k0 u1", "O T+m P+ H0.1 k0 u0", "O T+m T+m H0.1 H1.0 k0 k1",
         "O P+ H0.0 a0.0", "O P+ H0.0 a0.2", "O P+ r0 H0.0 a0.1 u0", "O P+ r0 H0.0 a0.3 u0", "O P+ P+ H0.1 H1.0 a0.0",
         "O P+ B+ p1.0 H0.0 a0.0 t1.616263 u1", "O P+ T+x H0.0 p1.0 a0.0 w1.6162 u1",
+        # a binding that is notified of its object's destruction still uses the dying object (emits a key and resizes the
+        # terminal, changes the pen): the dispatch's reference pair must not destroy it a second time
+        "O T+m D0.0 u0", "O T+x D0.0 u0", "O T+m D0.1 u0", "O T+x D0.1 u0", "O T+m D0.0 D0.1 H0.0 k0", "O T+x r0 K+0 D0.0 u1",
+        "O T+m D0.1 D0.0 r0 u0 k0 u0", "O P+ D0.0 u0", "O P+ D0.1 u0", "O P+ D0.1 H0.0 a0.0", "O P+ D0.0 D0.1 r0 a0.1 u0 u0",
+        "O P+ B+ D0.0 p1.0 u0 t1.616263 u1", "O P+ T+x D0.1 p1.0 u0 w1.6162 u1",
     ]
     for sizes in itertools.product((0, 1, 3, 16, 64), repeat=3):
         fixed.append("O T+x o0.%d w0.616263 G0 o0.%d w0.e4b8ad61 P+ a1.1 p0.1 o0.%d w0.6162 F0 u1 u0" % sizes)
@@ -570,6 +579,7 @@ def gen_O(tier, seed, info):
         objs = []      # (kind, held)
         toks = []
         hooks = []     # [owner, target, armed]: H handlers (fire on the owner's next KEY / CHANGE event)
+        dying_bound = set()   # objects with a D binding
 
         def fire(owner):
             for h in hooks:
@@ -602,8 +612,14 @@ def gen_O(tier, seed, info):
             elif r < 0.5:
                 toks.append("u%d" % i); objs[i][1] -= 1
             elif r < 0.56 and k in "PT":
-                j = rnd.choice(live)
-                toks.append("H%d.%d" % (i, j)); hooks.append([i, j, True])
+                if i not in dying_bound:
+                    j = rnd.choice(live)
+                    toks.append("H%d.%d" % (i, j)); hooks.append([i, j, True])
+            elif r < 0.59 and k in "PT":
+                # (not on an object that has an H handler: the dying object's own events would fire it, at a moment the
+                #  driver's expansion of H handlers does not know)
+                if not any(h[0] == i for h in hooks):
+                    toks.append("D%d.%d" % (i, rnd.randint(0, 1))); dying_bound.add(i)
             elif k == 'P':
                 c = rnd.choice("adeyc")
                 if c == 'a':
